@@ -295,7 +295,12 @@ func VerifTrav_DuplicateIDs() {
 	n.nodes[0].neighbours = []int{1, 2}
 	n.nodes[0].aliases = []krpc.NodeInfo{{ID: verifID(verifTarget, 0x21), Addr: victim}, {ID: verifID(verifTarget, 0x22), Addr: victim}}
 	n.nodes[1].aliases = []krpc.NodeInfo{{ID: verifID(verifTarget, 0x23), Addr: victim}}
-	n.run(verifChoice(1, 2), k, []int{0}, false)
+	// the victim may also be a seed (queued with or without its ID before any reply mentions it)
+	seeds := []int{0}
+	if verifNondetBool() {
+		seeds = []int{2, 0}
+	}
+	n.run(verifChoice(1, 2), k, seeds, false)
 	verifReach("end")
 }
 
